@@ -319,6 +319,15 @@ def cases_for(rng, n, ctx):
         elif op in ('pinv', 'svd'):
             n2 = int(rng.integers(1, 5))
             A = obs_matrix(rng, pool, values_matrix(rng, m, n2))
+            if (i // len(ops)) % 3 == 1 and m >= 2 and n2 >= 2:
+                # structural zeros (plain numbers) that decouple the first row and column: singular vectors with components that are exactly zero
+                B = A.copy()
+                B[0, 1:] = 0.0
+                B[1:, 0] = 0.0
+                sv = np.linalg.svd(_numeric(B).real, compute_uv=False)
+                if np.min(np.abs(np.diff(np.sort(sv)))) > 0.05 and np.min(sv) > 0.05:
+                    A = B
+                    cid += '-decoupled'
             if op == 'pinv':
                 r = framed([A], lambda: pe.linalg.pinv(A))
                 res = {'k': 'exc', 't': type(r).__name__} if isinstance(r, Exception) else {'k': 'ok', 'm': pm(r, pool)}
